@@ -4,7 +4,11 @@ from .shapes_geonet import *
 from .models_geonet import VALID_LPV
 
 LT_ = "flexstack.geonet.location_table"
-S = dict(mode="int", spec_module="spec_loct", float_as_real=True)
+def _symsets(e):
+    e.symbolic_sets = True
+
+
+S = dict(mode="int", spec_module="spec_loct", float_as_real=True, engine_setup=_symsets)
 ENTRY = T.obj(f"{LT_}:LocationTableEntry", mib=MIB, version=T.int(), position_vector_lock=T.lock,
               position_vector=VALID_LPV, ls_pending=T.bool, is_neighbour=T.bool, tst_lock=T.lock,
               tst=T.rec(f"{PV}:TST", msec=T.int(0, 2 ** 32 - 1)), pdr_lock=T.lock, pdr=T.float(0), dpl_lock=T.lock,
@@ -23,3 +27,95 @@ contract(f"{LT_}:LocationTableEntry.check_duplicate_sn", props=["C06"], shapes={
          raises_unchanged=[DUP],
          canary={"evicts_newest": "old(dq_len(self.dpl_deque)) < 1 or set_has(self.dpl_set, old(dq_at(self.dpl_deque, 0)))"},
          cover=["old(dq_len(self.dpl_deque)) == dq_maxlen(self.dpl_deque)"], **S)
+
+PVS = VALID_LPV
+contract(f"{LT_}:LocationTableEntry.update_position_vector", props=["C08"], shapes={"self": ENTRY, "position_vector": PVS},
+         modifies=["self.position_vector"],
+         ensures={"newest_wins": "self.position_vector == (position_vector if (old(self.position_vector.tst.msec) == 0 or tst_newer(position_vector.tst.msec, old(self.position_vector.tst.msec))) else old(self.position_vector))",
+                  "older_or_equal_never_replaces": "implies(old(self.position_vector.tst.msec) != 0 and not tst_newer(position_vector.tst.msec, old(self.position_vector.tst.msec)), self.position_vector == old(self.position_vector))"},
+         canary={"always_replaces": "self.position_vector == position_vector"}, **S)
+contract(f"{LT_}:LocationTableEntry.update_pdr", props=["C08"], shapes={"self": ENTRY, "position_vector": PVS, "packet_size": T.int(0, 70000)},
+         requires=["self.pdr >= 0", "0 <= self.mib.itsGnMaxPacketDataRateEmaBeta <= 100"], modifies=["self.tst", "self.pdr"],
+         ensures={"tst_is_last_packet_time": "self.tst.msec == position_vector.tst.msec", "pdr_nonnegative": "self.pdr >= 0"}, **S)
+contract(f"{LT_}:LocationTableEntry.update_with_shb_packet", props=["C08"],
+         shapes={"self": ENTRY, "position_vector": PVS, "packet": T.bytes(0, 2000)},
+         requires=["self.pdr >= 0", "0 <= self.mib.itsGnMaxPacketDataRateEmaBeta <= 100"],
+         modifies=["self.position_vector", "self.tst", "self.pdr", "self.is_neighbour"],
+         ensures={"becomes_neighbour": "self.is_neighbour",
+                  "newest_pv": "self.position_vector == (position_vector if (old(self.position_vector.tst.msec) == 0 or tst_newer(position_vector.tst.msec, old(self.position_vector.tst.msec))) else old(self.position_vector))"}, **S)
+contract(f"{LT_}:LocationTableEntry.update_with_tsb_packet", props=["C08", "C06"],
+         shapes={"self": ENTRY, "packet": T.bytes(0, 2000), "tsb_extended_header": T.rec(f"{TSBH}:TSBExtendedHeader", so_pv=PVS, sn=T.int(0, 65535)),
+                 "is_new_entry": T.bool},
+         requires=["dpl_wf(self)", "self.pdr >= 0", "0 <= self.mib.itsGnMaxPacketDataRateEmaBeta <= 100"],
+         modifies=["self.position_vector", "self.tst", "self.pdr", "self.is_neighbour", "self.dpl_set", "self.dpl_deque"],
+         raises={DUP: "set_has(self.dpl_set, tsb_extended_header.sn)"}, raises_unchanged=[DUP],
+         ensures={"neighbour_flag_kept_for_known_source": "self.is_neighbour == (False if is_new_entry else old(self.is_neighbour))",
+                  "newest_pv": "self.position_vector == newest_pv(old(self.position_vector), tsb_extended_header.so_pv)",
+                  "sn_recorded": "set_has(self.dpl_set, tsb_extended_header.sn)", "ring_invariant_kept": "dpl_wf(self)"}, **S)
+contract(f"{LT_}:LocationTableEntry.update_with_gbc_packet", props=["C08", "C06"],
+         shapes={"self": ENTRY, "packet": T.bytes(0, 2000), "gbc_extended_header": T.rec(f"{GBCH}:GBCExtendedHeader", so_pv=PVS, sn=T.int(0, 65535))},
+         requires=["dpl_wf(self)", "self.pdr >= 0", "0 <= self.mib.itsGnMaxPacketDataRateEmaBeta <= 100"],
+         modifies=["self.position_vector", "self.tst", "self.pdr", "self.is_neighbour", "self.dpl_set", "self.dpl_deque"],
+         raises={DUP: "set_has(self.dpl_set, gbc_extended_header.sn)"}, raises_unchanged=[DUP],
+         ensures={"neighbour_flag_untouched": "self.is_neighbour == old(self.is_neighbour)",
+                  "newest_pv": "self.position_vector == newest_pv(old(self.position_vector), gbc_extended_header.so_pv)",
+                  "sn_recorded": "set_has(self.dpl_set, gbc_extended_header.sn)", "ring_invariant_kept": "dpl_wf(self)"}, **S)
+
+# ---------------------------------------------------------------- LocationTable (map keyed by GN address; one arbitrary entry tracked)
+LOCT = T.obj(f"{LT_}:LocationTable", mib=MIB, loc_t=T.keymap("loc_t", GNADDR, ENTRY), loc_t_lock=T.opaque("rlock"))
+contract(f"{LT_}:LocationTable.refresh_table", props=["C08"], shapes={"self": LOCT},
+         requires=["self.mib.itsGnLifetimeLocTE >= 0", "now() >= 1072915200"], modifies=["self.loc_t"], frame_check=False,
+         ensures={
+             "kept_iff_signed_age_within_lifetime": "implies(old(map_has(self.loc_t, map_key0(self.loc_t))), map_has(self.loc_t, old(map_key0(self.loc_t))) == (sgn32((clock_tst_ms() - old(map_get(self.loc_t, map_key0(self.loc_t)).position_vector.tst.msec)) % 2 ** 32) <= self.mib.itsGnLifetimeLocTE * 1000))",
+             "never_resurrects": "implies(not old(map_has(self.loc_t, map_key0(self.loc_t))), not map_has(self.loc_t, old(map_key0(self.loc_t))))"},
+         canary={"unsigned_age": "implies(old(map_has(self.loc_t, map_key0(self.loc_t))), map_has(self.loc_t, old(map_key0(self.loc_t))) == ((clock_tst_ms() - old(map_get(self.loc_t, map_key0(self.loc_t)).position_vector.tst.msec)) % 2 ** 32 <= self.mib.itsGnLifetimeLocTE * 1000))"},
+         **S)
+
+# lemma: what the signed age of the second-truncated clock means in real time (pure integer arithmetic)
+contract("harness_loct:entry_kept", props=["C08"], mode="int", spec_module="spec_loct",
+         shapes={"now_ms": T.int(0, 2 ** 62), "stamp_ms": T.int(0, 2 ** 62), "lifetime_s": T.int(0, 100000)},
+         ensures={"kept_for_the_lifetime": "implies(0 <= now_ms - stamp_ms <= lifetime_s * 1000, result)",
+                  "kept_when_sender_clock_ahead": "implies(-5000 <= now_ms - stamp_ms < 0, result)",
+                  "gone_afterwards": "implies(lifetime_s * 1000 + 1000 <= now_ms - stamp_ms < 2 ** 31, not result)"})
+
+contract(f"{LT_}:LocationTableEntry.__init__", props=["C08", "C06"], shapes={"self": ENTRY, "mib": MIB},
+         requires=["mib.itsGnDPLLength >= 1"], modifies=["self.*"], frame_check=False,
+         ensures={"not_neighbour": "not self.is_neighbour and not self.ls_pending",
+                  "no_position_yet": "self.position_vector.tst.msec == 0 and self.tst.msec == 0 and self.pdr == 0",
+                  "empty_duplicate_list": "dq_len(self.dpl_deque) == 0 and dq_maxlen(self.dpl_deque) == mib.itsGnDPLLength and forall(lambda x: not set_has(self.dpl_set, x))",
+                  "mib": "self.mib == mib"}, **S)
+
+LT_PRE = ["self.mib.itsGnLifetimeLocTE >= 0", "now() >= 1072915200", "self.mib.itsGnDPLLength >= 1",
+          "0 <= self.mib.itsGnMaxPacketDataRateEmaBeta <= 100",
+          "implies(map_has(self.loc_t, K0(self)), entry_ok(map_get(self.loc_t, K0(self))))"]
+INL = [f"{LT_}:LocationTable.refresh_table", f"{LT_}:LocationTable.get_entry"]
+contract(f"{LT_}:LocationTable.new_shb_packet", props=["C08"],
+         shapes={"self": LOCT, "position_vector": PVS, "packet": T.bytes(0, 2000)},
+         requires=LT_PRE + ["gn_key_eq(K0(self), position_vector.gn_addr)"], inline=INL, frame_check=False,
+         modifies=["self.loc_t"],
+         ensures={"neighbour_from_single_hop": "implies(map_has(self.loc_t, position_vector.gn_addr), map_get(self.loc_t, position_vector.gn_addr).is_neighbour)",
+                  "newest_position_vector": "implies(map_has(self.loc_t, position_vector.gn_addr) and old(map_has(self.loc_t, K0(self))), map_get(self.loc_t, position_vector.gn_addr).position_vector == newest_pv(old(map_get(self.loc_t, K0(self)).position_vector), position_vector))",
+                  "first_position_vector": "implies(map_has(self.loc_t, position_vector.gn_addr) and not old(map_has(self.loc_t, K0(self))), map_get(self.loc_t, position_vector.gn_addr).position_vector == position_vector)",
+                  "present_iff_not_expired": "map_has(self.loc_t, position_vector.gn_addr) == (sgn32((clock_tst_ms() - map_get(self.loc_t, position_vector.gn_addr).position_vector.tst.msec) % 2 ** 32) <= self.mib.itsGnLifetimeLocTE * 1000)"},
+         cover=["old(map_has(self.loc_t, K0(self)))", "not old(map_has(self.loc_t, K0(self)))"], **S)
+
+
+def _multi_hop(name, hdr_param, hdr_shape):
+    contract(f"{LT_}:LocationTable.{name}", props=["C08", "C06"],
+             shapes={"self": LOCT, hdr_param: hdr_shape, "packet": T.bytes(0, 2000)},
+             requires=LT_PRE + [f"gn_key_eq(K0(self), {hdr_param}.so_pv.gn_addr)"], inline=INL, frame_check=False,
+             modifies=["self.loc_t"],
+             raises={DUP: f"map_has(self.loc_t, K0(self)) and set_has(map_get(self.loc_t, K0(self)).dpl_set, {hdr_param}.sn)"},
+             ensures={"neighbour_flag_untouched_by_multi_hop": f"implies(map_has(self.loc_t, {hdr_param}.so_pv.gn_addr), map_get(self.loc_t, {hdr_param}.so_pv.gn_addr).is_neighbour == (old(map_has(self.loc_t, K0(self))) and old(map_get(self.loc_t, K0(self)).is_neighbour)))",
+                      "sequence_number_recorded": f"implies(map_has(self.loc_t, {hdr_param}.so_pv.gn_addr), set_has(map_get(self.loc_t, {hdr_param}.so_pv.gn_addr).dpl_set, {hdr_param}.sn))",
+                      "ring_invariant_kept": f"implies(map_has(self.loc_t, {hdr_param}.so_pv.gn_addr), dpl_wf(map_get(self.loc_t, {hdr_param}.so_pv.gn_addr)))",
+                      "newest_position_vector": f"implies(map_has(self.loc_t, {hdr_param}.so_pv.gn_addr) and old(map_has(self.loc_t, K0(self))), map_get(self.loc_t, {hdr_param}.so_pv.gn_addr).position_vector == newest_pv(old(map_get(self.loc_t, K0(self)).position_vector), {hdr_param}.so_pv))"},
+             cover=["old(map_has(self.loc_t, K0(self)))", "not old(map_has(self.loc_t, K0(self)))"], **S)
+
+
+_multi_hop("new_tsb_packet", "tsb_extended_header", T.rec(f"{TSBH}:TSBExtendedHeader", so_pv=PVS, sn=T.int(0, 65535)))
+_multi_hop("new_gbc_packet", "gbc_extended_header", T.rec(f"{GBCH}:GBCExtendedHeader", so_pv=PVS, sn=T.int(0, 65535)))
+_multi_hop("new_gac_packet", "gbc_extended_header", T.rec(f"{GBCH}:GBCExtendedHeader", so_pv=PVS, sn=T.int(0, 65535)))
+_multi_hop("new_guc_packet", "guc_extended_header", T.rec(f"{GUCH}:GUCExtendedHeader", so_pv=PVS, de_pv=SPV, sn=T.int(0, 65535)))
+_multi_hop("new_ls_request_packet", "ls_request_header", T.rec(f"{LSH}:LSRequestExtendedHeader", so_pv=PVS, request_gn_addr=GNADDR, sn=T.int(0, 65535)))
+_multi_hop("new_ls_reply_packet", "ls_reply_header", T.rec(f"{LSH}:LSReplyExtendedHeader", so_pv=PVS, de_pv=SPV, sn=T.int(0, 65535)))
